@@ -67,6 +67,7 @@ pub const VARIANTS: &[(&str, &[&str])] = &[
     ("carry-many", &["C10"]),
     ("fanout-stepped", &["C07"]),
     ("root-weaks-paced", &["C09"]),
+    ("barriers-paced", &["C09"]),
 ];
 
 /// A root that itself holds many weak pointers (the random runs' root has two weak slots).
@@ -376,6 +377,91 @@ fn scenario(variant: &str, n: usize) -> Result<(), String> {
                 if cycle % 2 == 1 {
                     arena.mutate_root(|_, root| root.keep.clear());
                 }
+            }
+        }
+        "barriers-paced" => {
+            // The same bound while the mutator keeps writing to objects the marking has already
+            // finished with: 2w backward barriers (borrow_mut on both ends of a vector of K rooted
+            // objects, round-robin) before every cycle_debt call. A re-queued object is traced
+            // again, which is no new work: the cycle still ends before rho*H/(1-rho) allocations.
+            use gc_arena::arena::CollectionPhase;
+            let k = 512 + n % 3584;
+            let burst = 1 + (n / 4096) % 3;
+            let w = 1 + (n / 7) % 8;
+            let d = gc_arena::metrics::Pacing::DEFAULT;
+            let p = match (n / 12288) % 4 {
+                0 => d,
+                1 => gc_arena::metrics::Pacing { sleep_factor: 0.5, min_sleep: 64, mark_factor: 0.25, trace_factor: 0.25, keep_factor: 0.25, drop_factor: 0.25, free_factor: 0.25 },
+                2 => gc_arena::metrics::Pacing { sleep_factor: 1.0, min_sleep: 0, mark_factor: 0.125, trace_factor: 0.5, keep_factor: 0.125, drop_factor: 0.5, free_factor: 0.25 },
+                _ => gc_arena::metrics::Pacing { sleep_factor: 0.25, min_sleep: d.min_sleep, mark_factor: 0.5, trace_factor: 0.0, keep_factor: 0.0, drop_factor: 0.125, free_factor: 0.125 },
+            };
+            let rho = (p.mark_factor + p.trace_factor + p.keep_factor).max(p.drop_factor + p.free_factor).max(p.mark_factor + p.drop_factor + p.keep_factor);
+            let mut arena = Arena::<Rootable![Wide<'_>]>::new(|mc| {
+                let wd = wide(mc);
+                let mut v = wd.kids.borrow_mut(mc);
+                for i in 0..k {
+                    v.push(Gc::new(mc, RefLock::new(Par { c: Cnt(i as u32), kid: Some(Gc::new(mc, Cnt(i as u32))) })));
+                }
+                drop(v);
+                wd
+            });
+            let m = arena.metrics().clone();
+            m.set_pacing(p);
+            arena.finish_cycle();
+            let live = 2 * k + 3;
+            if m.total_gc_count() != live || drops() != 0 {
+                return Err(format!("{live} reachable allocations: after a full cycle total_gc_count reads {} and {} values were destructed", m.total_gc_count(), drops()));
+            }
+            let mut pos = 0usize;
+            for cycle in 0..4 {
+                if arena.collection_phase() != CollectionPhase::Sleeping {
+                    return Err(format!("cycle {cycle}: the collector is not asleep after a finished cycle"));
+                }
+                let mut steps = 0usize;
+                let mut woke: Option<usize> = None;
+                let mut made = 0usize;
+                loop {
+                    arena.mutate(|mc, root| {
+                        garbage(mc, burst);
+                        let v = root.kids.borrow();
+                        for t in 0..w {
+                            let j = (pos + t) % k;
+                            drop(v[j].borrow_mut(mc));
+                            drop(v[k - 1 - j].borrow_mut(mc));
+                        }
+                    });
+                    pos += w;
+                    let c0 = m.total_gc_count();
+                    if woke.is_some() {
+                        made += burst;
+                    }
+                    arena.cycle_debt();
+                    let asleep = arena.collection_phase() == CollectionPhase::Sleeping;
+                    match woke {
+                        None if !asleep => woke = Some(c0),
+                        None => {
+                            steps += 1;
+                            if steps > 64 * k + 4096 {
+                                return Err(format!("cycle {cycle}: {steps} steps of {burst} allocations and the collector never woke (count {})", m.total_gc_count()));
+                            }
+                        }
+                        Some(_) if asleep => break,
+                        Some(h) => {
+                            let bound = rho * h as f64 / (1.0 - rho);
+                            if !((made as f64) < bound) {
+                                return Err(format!("cycle {cycle}: woke with H = {h} ({} objects already marked are written before every call); {made} allocations later the cycle is still unfinished after cycle_debt, but rho*H/(1-rho) = {bound} (rho = {rho})", 2 * w));
+                            }
+                        }
+                    }
+                }
+            }
+            if drops() == 0 {
+                return Err("four cycles ended and none of the garbage values was destructed".into());
+            }
+            arena.finish_cycle();
+            arena.finish_cycle();
+            if m.total_gc_count() != live {
+                return Err(format!("{live} reachable allocations after the paced cycles and two full ones; total_gc_count reads {}", m.total_gc_count()));
             }
         }
         "handles-many" => {
